@@ -8,7 +8,8 @@ EXTENDS Naturals, Sequences, FiniteSets, TLC, Json, ConfigKeys
 CONSTANTS Record,      \* TRUE: carry the script history and print it at depth MaxLen
           MaxLen,      \* script length / exploration depth
           MaxStack,    \* maximal nesting of with-blocks
-          Rich         \* TRUE: larger operation alphabet
+          Rich,        \* TRUE: larger operation alphabet
+          GH           \* TRUE: include the group whose own name has two spellings (g-h / g_h)
 
 FilesDef == (<<>> :> "MAP")
 
@@ -20,14 +21,17 @@ allvars == <<store, dflt, user, stack, hist, snaps, act>>
 Leaf(v) == <<[p |-> <<>>, v |-> v]>>
 Vs == IF Rich THEN {"v1", "v2", "v3"} ELSE {"v1", "v2"}
 
+\* GH: include the group with a two-spelling name (the deepest exhaustive run leaves it out: two more leaves
+\* multiply the store states by 16)
+GHPaths == IF GH THEN {<<"g-h", "z">>, <<"g_h", "r">>} ELSE {}
 \* spelled leaf paths
 LeafSp == IF Rich
           THEN {<<"p-q">>, <<"p_q">>, <<"r">>, <<"m", "x-y">>, <<"m", "x_y">>, <<"m", "z">>,
-                <<"m", "n", "w-v">>, <<"m", "n", "w_v">>, <<"g-h", "z">>, <<"g_h", "r">>}
+                <<"m", "n", "w-v">>, <<"m", "n", "w_v">>} \cup GHPaths
           \* (g-h / g_h: a GROUP whose own name has the two spellings; its two entries are each reached through
           \* the other spelling of the group)
           ELSE {<<"p-q">>, <<"p_q">>, <<"m", "x-y">>, <<"m", "x_y">>, <<"m", "z">>,
-                <<"m", "n", "w_v">>, <<"g-h", "z">>, <<"g_h", "r">>}
+                <<"m", "n", "w_v">>} \cup GHPaths
 
 \* whole-sub-map values (pairs relative to the assigned path)
 MapVals(v) == { <<[p |-> <<>>, v |-> "MAP"]>>,
